@@ -847,6 +847,9 @@ MUTANTS = [
     M('batch-size-restored-from-file', S,
       "                            'n_update_iter', 'n_like_iter']:\n                    setattr(self, key, group.attrs[key])",
       "                            'n_update_iter', 'n_like_iter', 'n_batch']:\n                    setattr(self, key, group.attrs[key])", 'C10 C05'),
+    M('split-option-rebound-before-retry', U,
+      "        if not allow_overlap and ellipsoids_overlap(\n                self.bounds[:index] + self.bounds[index+1:] + new_bounds):\n            return False\n",
+      "        allow_overlap = allow_overlap or not ellipsoids_overlap(\n            self.bounds[:index] + self.bounds[index+1:] + new_bounds)\n        if not allow_overlap:\n            return False\n", 'C13'),
     M('job-returns-the-caller', N,
       "        bound.sample(n_points=n_points, return_points=False)\n        return bound\n",
       "        bound.sample(n_points=n_points, return_points=False)\n        return self\n", 'C08 C03'),
